@@ -160,6 +160,17 @@ Proof.
   - inversion H; subst. eapply (op_add_node_atomic fl name node_id (Some tFacility) None s s' e); auto.
 Qed.
 
+Lemma add_switch_first_step fl name node_id d_ns d_intk nstype pure_ns nports pure_port s s' e :
+  op_add_switch fl name node_id d_ns d_intk nstype pure_ns nports pure_port s = (s', Err e) ->
+  (forall s1 id, op_add_node fl name node_id (Some tSwitch) None s <> (s1, Ok id)) ->
+  sg s' = sg s.
+Proof.
+  intros H Hno. unfold op_add_switch in H. unfold bind at 1 in H.
+  destruct (op_add_node fl name node_id (Some tSwitch) None s) as [s1 [id|e1]] eqn:E.
+  - exfalso. eapply Hno; eauto.
+  - inversion H; subst. eapply (op_add_node_atomic fl name node_id (Some tSwitch) None s s' e); auto.
+Qed.
+
 (* ---------------------------------------------------------------- non-vacuity instances *)
 From Coq Require Import String.
 From FIM Require Import Proofs.T9Refuted.
@@ -218,3 +229,9 @@ Lemma add_link_atomic_existing fl name node_id ltype ifs pure s s' e :
 Proof. apply op_add_link_atomic_if_ifaces_exist. Qed.
 Lemma names_translated : t9_gen_ok = true.
 Proof. reflexivity. Qed.
+
+(* a two-port switch is built completely (node, service, p1, p2) when nothing is rejected *)
+Lemma ex_switch_ok :
+  let r := op_add_switch Experiment (S "sw1") None 0 [] tVLAN None 2 None (mkSt g_two_nodes supply) in
+  snd r = Ok 50 /\ List.length (gnodes (sg (fst r))) = 13%nat.
+Proof. vm_compute. auto. Qed.
